@@ -103,6 +103,13 @@ def _call(args):
         return ('harness', 'worker exception: %r\n%s' % (e, traceback.format_exc()))
 
 
+def _worker_init():
+    # the parent's cleanup handlers must not run in pool workers: Pool.terminate()
+    # relies on the default SIGTERM action
+    for s in (signal.SIGTERM, signal.SIGINT, signal.SIGHUP):
+        signal.signal(s, signal.SIG_DFL)
+
+
 def pmap(func, items, workers=None, chunksize=1):
     """Deterministic parallel map over a fully materialised list of shards.
 
@@ -115,7 +122,7 @@ def pmap(func, items, workers=None, chunksize=1):
         out = [_call((func, i)) for i in items]
     else:
         ctx = multiprocessing.get_context('fork')
-        with ctx.Pool(workers) as pool:
+        with ctx.Pool(workers, initializer=_worker_init) as pool:
             out = pool.map(_call, [(func, i) for i in items], chunksize)
     res = []
     for tag, val in out:
@@ -123,6 +130,12 @@ def pmap(func, items, workers=None, chunksize=1):
             raise HarnessError(val)
         res.append(val)
     return res
+
+
+def is_subseq(t, s):
+    """t is a (not necessarily contiguous) subsequence of s"""
+    it = iter(s)
+    return all(any(x == c for c in it) for x in t)
 
 
 def chunks(seq, n):
